@@ -244,6 +244,14 @@ func genScenarioKind(r *lib.Rng, cp int, i int, kind int, topic string) Case {
 				g.send(ws[r.Intn(len(ws))], calmSizes[r.Intn(len(calmSizes))])
 			}
 		}
+		if r.Chance(1, 2) && len(ws) > 1 {
+			// one writer fails in the middle of a record: nothing of it may reach anybody; the others go on
+			nextID++
+			g.seq[ws[0]]++
+			g.ops = append(g.ops, Op{K: "partial", N: ws[0], Size: []int{1000, 200, 60000}[r.Intn(3)], MT: 1 + r.Intn(2), ID: nextID, Seq: g.seq[ws[0]]})
+			g.send(ws[1], 125)
+			g.send(ws[1], 126)
+		}
 	default:
 		c.Kind = "stall"
 		stats := i%8 == 4
